@@ -69,6 +69,23 @@ Proof.
     destruct (is_lua_section name); [rewrite IH; exact A|rewrite IH; exact A].
 Qed.
 
+(* the loop that fills short data sections up does not touch the Lua object (whatever its table) *)
+Lemma pad_section_lua c kd c1 : pad_section lua c kd = Ok c1 -> c_lua c1 = c_lua c.
+Proof.
+  destruct kd as [k dflt]. unfold pad_section.
+  repeat match goal with
+         | |- (if ?b then _ else _) = _ -> _ => destruct b
+         end; try discriminate; intros [= <-]; reflexivity.
+Qed.
+
+Lemma fold_pad_lua : forall tbl c c', foldM (pad_section lua) tbl c = Ok c' -> c_lua c' = c_lua c.
+Proof.
+  induction tbl as [|kd r IH]; intros c c' H.
+  - cbn in H. injection H as <-. reflexivity.
+  - cbn [foldM] in H. destruct (pad_section lua c kd) as [c1|e] eqn:E1; [|discriminate].
+    cbn in H. rewrite (IH c1 c' H). apply (pad_section_lua c kd c1 E1).
+Qed.
+
 (* the Lua object of the cart read from [file] is Lua.from_lines of the file's code lines (the empty Lua object
    when the file has no __lua__ section) *)
 Lemma read_p8_code file c :
@@ -79,8 +96,11 @@ Lemma read_p8_code file c :
     | None => c_lua c = lua_empty
     end.
 Proof.
-  unfold read_p8. destruct (get_raw_data file) as [raw|e]; [|discriminate]. cbn. intros H.
-  exists raw. split; [reflexivity|]. apply fold_sections_lua in H.
+  unfold read_p8. destruct (get_raw_data file) as [raw|e]; [|discriminate]. cbn [bind].
+  destruct (foldM (apply_section lua lua_from_lines) (raw_sections raw) (empty_cart lua lua_empty (raw_version raw)))
+    as [c0|e] eqn:H; [|discriminate].
+  intros P. apply fold_pad_lua in P.
+  exists raw. split; [reflexivity|]. apply fold_sections_lua in H. rewrite P.
   destruct (last_lua (raw_sections raw)); exact H.
 Qed.
 End Reader.
